@@ -51,6 +51,12 @@ theorem to_short_messages {α : Type} (F : Factory α) (m : GMsg) :
       simp only
       cases mkControlChange F m.channel l (extractLow7 m.value) <;> rfl
 
+/-- `From<ControlChange14BitMessage> for [T; 2]` is `to_short_messages` -/
+theorem from_array {α : Type} (F : Factory α) (m : GMsg) :
+    CCMsg.ControlChange14BitMessage.from_array F m = m.to_short_messages F := by
+  unfold CCMsg.ControlChange14BitMessage.from_array
+  cases m.to_short_messages F <;> rfl
+
 end CCM
 
 namespace PNM
@@ -109,5 +115,11 @@ theorem to_short_messages {α : Type} (F : Factory α) (m : GMsg) (o : PNMsgFile
   generalize mkControlChange F c Gen.CN.DATA_DECREMENT (extractLow7 v) = r6
   cases r1 <;> cases r2 <;> cases d <;> cases o <;> cases b <;> simp [dt, ord, Except.map] <;>
     cases r3 <;> cases r4 <;> cases r5 <;> cases r6 <;> first | rfl | simp
+/-- `From<ParameterNumberMessage> for [Option<T>; 4]` is the MSB-first encoding -/
+theorem from_array {α : Type} (F : Factory α) (m : GMsg) :
+    PNMsgFile.ParameterNumberMessage.from_array F m = m.to_short_messages F .MsbFirst := by
+  unfold PNMsgFile.ParameterNumberMessage.from_array
+  cases m.to_short_messages F .MsbFirst <;> rfl
+
 end PNM
 end Midi.GenTie
